@@ -75,8 +75,12 @@ def gen_structured(rng, n, tables):
             return case_variant(rng, "tar")
         return case_variant(rng, rng.choice(nam_words))
 
+    UTF8 = ["日本", "café", "naïve", "журнал", "ü", "𝔘"]
+
     def first():
         r = rng.random()
+        if r < 0.08:
+            return rng.choice(UTF8) + (unknown() if rng.random() < 0.5 else "")
         if r < 0.4:
             return case_variant(rng, rng.choice(nam_words))
         if r < 0.5:
@@ -96,13 +100,27 @@ def gen_structured(rng, n, tables):
         post = junkstr(junk, 0.3)
         c0 = first()
         comps = [comp() for _ in range(rng.choice([0, 0, 1, 1, 2, 2, 3, 4]))]
+        if rng.random() < 0.06 and comps:
+            j = rng.randrange(len(comps))
+            if comps[j].lower() not in known and not comps[j].lstrip("+-").isdigit():
+                comps[j] = rng.choice(UTF8) + comps[j]
         uat = rng.random() < 0.5
         out.append((pre, c0, comps, post, uat))
+    # raw first components (not valid UTF-8), no junk, decided by a type word further right
+    RAW = [b"\xff", b"caf\xe9", b"\x93\xfa\x8e\x8f", b"\xc3", b"\xe6\x97", b"a\xffb", b"\x80log", b"\xf5\xf6", b"\xed\xa0\x80"]
+    for _ in range(max(20, n // 12)):
+        comps = [comp() for _ in range(rng.choice([1, 1, 2, 3]))]
+        comps.insert(rng.randrange(len(comps) + 1), case_variant(rng, rng.choice(typ_words + ["tar"] + unp_words[:3])))
+        out.append(("", rng.choice(RAW), comps, "", rng.random() < 0.5))
     return out
 
 
+def tob(x):
+    return x if isinstance(x, bytes) else x.encode()
+
+
 def render(pre, c0, comps, post):
-    return (pre + c0 + "".join("." + c for c in comps) + post).encode()
+    return tob(pre) + tob(c0) + b"".join(b"." + tob(c) for c in comps) + tob(post)
 
 
 def gen_arbitrary(rng, n):
@@ -206,8 +224,8 @@ def run(ctx):
         rows = []
         for i in sh_:
             pre, c0, comps, post, uat = structured[i]
-            rows.append('("%s", "%s", [%s], "%s", %s, %d%%N)' % (hx(pre.encode()), hx(c0.encode()),
-                        "; ".join('"%s"' % hx(c.encode()) for c in comps), hx(post.encode()), b2coq(uat), impl[i]))
+            rows.append('("%s", "%s", [%s], "%s", %s, %d%%N)' % (hx(tob(pre)), hx(tob(c0)),
+                        "; ".join('"%s"' % hx(tob(c)) for c in comps), hx(tob(post)), b2coq(uat), impl[i]))
         texts.append(hdr + "Definition cases : list (string * string * list string * string * bool * N) := [\n%s\n].\nEval vm_compute in (spec_bad cases).\n" % ";\n".join(rows))
     res = vlib.coq_eval_shards(os.path.join(corr_dir, "spec"), texts)
     spec_fail = 0
@@ -225,8 +243,9 @@ def run(ctx):
                 continue
             spec_fail += 1
             cls = ["first_component_all_junk"] if f6_class(pre) else []
-            ctx.failure(dict(name=render(pre, c0, comps, post).decode(), pre=pre, c0=c0, comps=comps, post=post,
-                             unparseable_are_text=uat), s, impl[i], cls)
+            nm = render(pre, c0, comps, post)
+            ctx.failure(dict(name=nm.decode("utf-8", "replace"), name_hex=hx(nm), pre=pre, c0=c0 if isinstance(c0, str) else "hex:" + hx(c0),
+                             comps=comps, post=post, unparseable_are_text=uat), s, impl[i], cls)
     if illformed:
         ctx.obligation_broken("generator", "structured generator produced %d ill-formed names" % illformed, "")
 
@@ -255,7 +274,7 @@ def replay(ctx, path):
     ok, log = vlib.build_harness("c16")
     for f in r.get("failures", []):
         c = f["case"]
-        name = c["name"].encode() if "name" in c else bytes.fromhex(c["name_hex"])
+        name = bytes.fromhex(c["name_hex"]) if "name_hex" in c else c["name"].encode()
         outl, err = vlib.harness("c16", ["%s\t%d" % (hx(name), 1 if c["unparseable_are_text"] else 0)])
         print("replay name=%r uat=%s expected(spec)=%s got(impl)=%s" % (name, c["unparseable_are_text"], f["expected"], outl))
         if outl and str(outl[0]) != str(f["expected"]):
